@@ -3,6 +3,7 @@ package main
 import (
 	"math"
 	"math/rand"
+	"sort"
 
 	"verifharness/rig"
 )
@@ -146,10 +147,14 @@ func (g *gen) mutateSchemas(st *seqState, limits []int32) []Schema {
 }
 
 func (g *gen) seqCase(i int) Case {
-	stream := []string{"basic", "basic", "tb-resync", "overlimit", "overlimit", "ids", "edge", "acquire", "acquire", "basic"}[i%10]
+	stream := []string{"basic", "tb-params", "tb-resync", "overlimit", "overlimit", "ids", "edge", "acquire", "tb-params", "basic"}[i%10]
 	if stream == "tb-resync" {
 		g.lastStream = stream
 		return g.resyncCase()
+	}
+	if stream == "tb-params" {
+		g.lastStream = stream
+		return g.paramsCase()
 	}
 	g.lastStream = stream
 	st := &seqState{lastID: map[string]int64{}}
@@ -247,7 +252,122 @@ func (g *gen) seqCase(i int) Case {
 			ops = append(ops, Op{K: "del", Inst: inst})
 		}
 	}
-	return Case{Kind: "seq", Ops: ops}
+	return Case{Kind: "seq", Ops: g.withProbes(ops)}
+}
+
+// withProbes: after EVERY sync / resize op, every configured token bucket is probed: one DoAcquire with the asks
+// P, P/2, …, 1 (P a power of two well above qps and burst) drains what the bucket will hand out at once; the rate
+// judge then compares that with the CONFIGURED burst + qps*T.
+func (g *gen) withProbes(ops []Op) []Op {
+	conf := newConfTracker()
+	out := []Op{}
+	for _, op := range ops {
+		out = append(out, op)
+		if op.K != "sync" && op.K != "resize" {
+			conf.apply(op)
+			continue
+		}
+		conf.apply(op)
+		names := []string{}
+		for n, f := range conf.fcs {
+			if f.typ == "tb" {
+				names = append(names, n)
+			}
+		}
+		sort.Strings(names)
+		for _, n := range names {
+			f := conf.fcs[n]
+			m := int64(max(f.q, f.b, 1))
+			p := int64(1)
+			for p < 4*m && p < 1<<20 {
+				p *= 2
+			}
+			probe := Op{K: "acq", Inst: rig.Hex("probe"), Rid: 0, Nows: make([]int64, 8)}
+			for ; p >= 1; p /= 2 {
+				probe.Reqs = append(probe.Reqs, Req{FC: n, Tokens: int32(p)})
+			}
+			out = append(out, probe)
+		}
+	}
+	return out
+}
+
+// paramsCase: token buckets whose qps and burst are far apart (both orders) next to other schemas; the spec is
+// re-delivered with this bucket unchanged next to a changed schema, really changed, resized directly to the same
+// or to other values; tokens are drawn in between. Buckets refill in real time here (LooseTB: judged, not diffed).
+func (g *gen) paramsCase() Case {
+	pairs := [][2]int32{{100, 10}, {10, 100}, {1000, 1}, {1, 1000}, {500, 2}, {2, 500}, {20, 200}, {200, 20}, {50, 5}, {3, 300}, {7, 7}, {1000, 0}}
+	pick := func() *[2]int32 { v := rig.Pick(g.r, pairs); return &v }
+	tb := Schema{Name: fcT, Tb: pick()}
+	other := []Schema{{Name: fcA, Mif: i32(rig.Pick(g.r, []int32{1, 5, 50}))}}
+	if g.r.Intn(2) == 0 {
+		other = append(other, Schema{Name: fcB, Tb: pick()})
+	}
+	spec := func() []Schema {
+		l := append([]Schema{}, other...)
+		pos := g.r.Intn(len(l) + 1)
+		return append(l[:pos:pos], append([]Schema{tb}, l[pos:]...)...)
+	}
+	ops := []Op{{K: "sync", Schemas: spec()}}
+	var rid int64
+	for k := 3 + g.r.Intn(10); k > 0; k-- {
+		switch w := g.r.Intn(20); {
+		case w < 6: // draw
+			rid++
+			name := fcT
+			par := *tb.Tb
+			if len(other) > 1 && other[1].Tb != nil && g.r.Intn(3) == 0 {
+				name, par = fcB, *other[1].Tb
+			}
+			b, q := int64(par[1]), int64(par[0])
+			tk := rig.Pick(g.r, []int64{b, b, b / 2, 1, 2 * b, 8 * b, b + 1, q, 8 * q, max(q, b)})
+			reqs := []Req{{FC: name, Tokens: int32(min(tk, 1<<30))}}
+			if g.r.Intn(3) == 0 {
+				reqs = append(reqs, Req{FC: fcA, Tokens: int32(g.r.Intn(8))})
+			}
+			ops = append(ops, Op{K: "acq", Inst: rig.Hex(rig.Pick(g.r, instNames)), Rid: rid, Nows: make([]int64, 8), Reqs: reqs})
+		case w < 13: // this bucket re-delivered unchanged next to a changed schema
+			switch g.r.Intn(4) {
+			case 0:
+				other[0] = Schema{Name: fcA, Mif: i32(*other[0].Mif + 1)}
+			case 1:
+				if len(other) > 1 {
+					other = other[:1]
+				} else {
+					other = append(other, Schema{Name: fcB, Tb: pick()})
+				}
+			case 2:
+				if len(other) > 1 && other[1].Tb != nil {
+					other[1] = Schema{Name: fcB, Tb: pick()}
+				} else {
+					other[0] = Schema{Name: fcA, Mif: i32(*other[0].Mif + 3)}
+				}
+			default:
+				other[0] = Schema{Name: fcA, Mif: i32(int32(1 + g.r.Intn(60)))}
+			}
+			ops = append(ops, Op{K: "sync", Schemas: spec()})
+		case w < 15: // identical spec delivered again (no delivery at all)
+			ops = append(ops, Op{K: "sync", Schemas: append([]Schema{}, ops[lastSync(ops)].Schemas...)})
+		case w < 17: // direct Resize to the same values
+			ops = append(ops, Op{K: "resize", FC: fcT, N: tb.Tb[0], Burst: tb.Tb[1]})
+		case w < 18: // direct Resize to other values (the spec keeps the old ones: an identical re-sync will not undo it)
+			v := pick()
+			ops = append(ops, Op{K: "resize", FC: fcT, N: v[0], Burst: v[1]})
+		default: // a real change of this bucket through the spec
+			tb = Schema{Name: fcT, Tb: pick()}
+			ops = append(ops, Op{K: "sync", Schemas: spec()})
+		}
+	}
+	return Case{Kind: "seq", Ops: g.withProbes(ops), LooseTB: true}
+}
+
+func lastSync(ops []Op) int {
+	for i := len(ops) - 1; i >= 0; i-- {
+		if ops[i].K == "sync" {
+			return i
+		}
+	}
+	return 0
 }
 
 // resyncCase: a token bucket next to other schemas of the same cluster; tokens are drawn, the cluster's spec is
@@ -298,20 +418,20 @@ func (g *gen) resyncCase() Case {
 			ops = append(ops, Op{K: "sync", Schemas: spec()})
 		}
 	}
-	return Case{Kind: "seq", Ops: ops}
+	return Case{Kind: "seq", Ops: g.withProbes(ops)}
 }
 
 func (g *gen) bucketCase() Case {
 	qps := rig.Pick(g.r, []int32{1, 2, 3, 7, 10, 100, 1000, 99999})
 	burst := rig.Pick(g.r, []int32{0, 1, 2, 5, 10, 100, 1000, 10000})
-	cs := Case{Kind: "bucket", QPS: qps, Burst: burst}
+	cs := Case{Kind: "bucket", QPS: qps, Burst: burst, ViaSync: g.r.Intn(2) == 0}
 	var now int64
 	ms := int64(1000000)
 	fill := int64(burst) * 1000 / int64(qps) // ms to refill completely
 	n := 5 + g.r.Intn(36)
 	back := g.r.Intn(12) == 0
 	neg := g.r.Intn(15) == 0
-	resizes := g.r.Intn(3) == 0
+	resizes := g.r.Intn(2) == 0
 	for k := 0; k < n; k++ {
 		step := rig.Pick(g.r, []int64{0, 0, 1, 1, 5, 100, 1000, 3000, fill, fill / 2, fill + 1, 1000 / int64(qps), 1000/int64(qps) + 1})
 		now += step * ms
